@@ -32,7 +32,7 @@ IRREGULAR = [
 ]
 UNITS_QUICK = [('h', 'd'), ('h', 'min')]
 UNITS_THOROUGH = [('h', 'd'), ('h', 'min'), ('d', 'min'), ('d', 'h')]
-UNIT_SHAPES = ['storage', 'transport_take', 'plant', 'scaled', 'split', 'msd', 'linked', 'plant_profiles', 'chp', 'chp_heat_profiles', 'split_take_plant']
+UNIT_SHAPES = ['storage', 'transport_take', 'plant', 'scaled', 'split', 'msd', 'linked', 'plant_profiles', 'chp', 'chp_heat_profiles', 'split_take_plant', 'coarse_contract', 'coarse_transport_storage']
 BOUNDS = dict(quick='unit pairs %s x shapes %s (grids 6h/12h/d so that durations are exactly representable); irregular grids %s' % (UNITS_QUICK, UNIT_SHAPES, [c[0] for c in IRREGULAR]),
               thorough='unit pairs %s' % UNITS_THOROUGH)
 OUTSIDE = ['construction of the grid points by pandas (date_range, DST rules): executed concretely', 'durations that are not exactly representable in both units (EAO rounds them up, documented)']
@@ -197,6 +197,23 @@ def build_unit(D, shp, unit):
             assets.append(eao.assets.SimpleContract(name='mH', nodes=nH, price='g', min_cap=rate('hmin', hi=0), max_cap=rate('hmax', lo=0)))
         pf = eao.portfolio.Portfolio(assets)
         prices = shapes.prices_for(D, ['p', 'q', 'g'], T)
+    elif shp in ('coarse_contract', 'coarse_transport_storage'):
+        # assets with an own, coarser frequency (one day on a 12-hour grid): the coarse step lengths are in the grid's main time unit as well
+        T = 4
+        tg = shapes.grid(T, '12h', unit)
+        w = D('wacc', lo=0)
+        if shp == 'coarse_contract':
+            co = eao.assets.Contract(name='co', nodes=nA, price='p', min_cap=rate('cmin', hi=0), max_cap=rate('cmax', lo=0), extra_costs=D('cec', lo=0), wacc=w, freq='d',
+                                     max_take=shapes.mk_take(tg, 0, 4, D('ctake', lo=0)))
+            assets = [co, eao.assets.SimpleContract(name='mkt', nodes=nA, price='q', min_cap=rate('mmin', hi=0), max_cap=rate('mmax', lo=0), wacc=w)]
+        else:
+            tr = eao.assets.Transport(name='tr', nodes=[nA, nB], min_cap=0., max_cap=rate('tmax', lo=0), efficiency=0.5, costs_const=D('tcc', lo=0), wacc=w, freq='d')
+            st = eao.assets.Storage('sto', nodes=nB, size=D('size', lo=0), cap_in=rate('capin', lo=0), cap_out=rate('capout', lo=0), eff_in=0.75,
+                                    cost_in=D('cin', lo=0), wacc=w, freq='d')
+            assets = [eao.assets.SimpleContract(name='mA', nodes=nA, price='p', min_cap=rate('amin', hi=0), max_cap=rate('amax', lo=0), wacc=w), tr, st,
+                      eao.assets.SimpleContract(name='mB', nodes=nB, price='q', min_cap=rate('bmin', hi=0), max_cap=rate('bmax', lo=0), wacc=w)]
+        pf = eao.portfolio.Portfolio(assets)
+        prices = shapes.prices_for(D, ['p', 'q'], T)
     else:
         raise KeyError(shp)
     if shp in ('split', 'split_take_plant'):
